@@ -11,7 +11,7 @@ ASSUMPTIONS = [
 ]
 TRUSTED = ["pandas shift/add(fill_value=0) contracts as written on Series.shift / Series.add"]
 GENKW = dict(allow_delete=True, allow_dumps=False, same_window=True, single_zone=True)
-ORACLES = ["unit_independence", "unit_of_an_edit"]
+ORACLES = ["unit_independence", "unit_of_an_edit", "whole_hours_in_days"]
 PROP = "C10"
 
 
